@@ -449,15 +449,15 @@ def blockOf (b : BOpV R) : BlockF R := b.wf.map fun d => (d.cplx, d.toDense)
 
 /-- `K[i, j] = o` on a `BlockedOperator` -/
 def blkSetV (p : Pool R) (k : Obj R) (i j : Nat) (o : Obj R) : Except Err (Obj R) :=
-  match k with
-  | .arr _ _ => .error .scope
-  | .blk kb =>
+  match k, o with
+  | .arr _ _, _ => .error .scope
+  | _, .arr _ _ => .error .scope
+  | .blk kb, o =>
     match kb.log with
     | none => .error .type
     | some log =>
       if i < kb.rans.length then
         match o with
-        | .arr _ _ => .error .scope
         | .bop b =>
           if (kb.rans.getD i none).all (· == b.ran) && (kb.duals.getD i none).all (· == b.dual) then
             if j < kb.doms.length then
@@ -474,7 +474,7 @@ def blkSetV (p : Pool R) (k : Obj R) (i j : Nat) (o : Obj R) : Except Err (Obj R
           if (kb.rans.getD i none).isSome then .error .attr
           else if j < kb.doms.length then .error .attr else .error .index
       else .error .index
-  | _ => .error .type
+  | _, _ => .error .type
 
 /-- `K * [g0, g1, ...]` -/
 def checkSpaces : List (Option Nat) → List (GfV R) → Except Err Unit
@@ -984,15 +984,15 @@ def lconsT : Ty → Ty → Except Err Ty
   | _, _ => .error .scope
 
 def blkSetT (p : Pool R) (k : Ty) (i j : Nat) (o : Ty) : Except Err Ty :=
-  match k with
-  | .arr _ => .error .scope
-  | .blk doms rans duals l _ =>
+  match k, o with
+  | .arr _, _ => .error .scope
+  | _, .arr _ => .error .scope
+  | .blk doms rans duals l _, o =>
     match l with
     | none => .error .type
     | some log =>
       if i < rans.length then
         match o with
-        | .arr _ => .error .scope
         | .bop d r u wf =>
           if (rans.getD i none).all (· == r) && (duals.getD i none).all (· == u) then
             if j < doms.length then
@@ -1009,7 +1009,7 @@ def blkSetT (p : Pool R) (k : Ty) (i j : Nat) (o : Ty) : Except Err Ty :=
           if (rans.getD i none).isSome then .error .attr
           else if j < doms.length then .error .attr else .error .index
       else .error .index
-  | _ => .error .type
+  | _, _ => .error .type
 
 /-- The compatibility rules the code implements, without any numbers. -/
 def typecheck (p : Pool R) : Expr R → Except Err Ty
@@ -1116,5 +1116,43 @@ def Pool.wfb (p : Pool R) : Bool :=
   p.minv.all (fun e => shapeOk (p.ndof e.1) (p.ndof e.2.1) e.2.2)
 
 end WF
+
+/-! ## Type-level counterpart of `observe`, complex rationals for the driver -/
+
+/-- can the result be forced and read out?  (mirrors the errors of `observe`) -/
+def observeT {R : Type} (p : Pool R) : Ty → Except Err Unit
+  | .scalar _ _ => .ok ()
+  | .bop _ _ _ wf => wf.map fun _ => ()
+  | .blk _ _ _ _ wf => wf.map fun _ => ()
+  | .dop _ => .ok ()
+  | .gf s d _ => coeffsT p s d
+  | .gfl l => coeffsListT p l
+  | .pot _ _ _ _ => .ok ()
+  | .arr _ => .ok ()
+
+/-- accept / reject verdict of a whole program -/
+def check {R : Type} (p : Pool R) (e : Expr R) : Except Err Unit := do
+  let t ← typecheck p e
+  observeT p t
+
+/-- Gaussian rationals: the scalar type of the native driver -/
+structure CRat where
+  re : Rat
+  im : Rat
+  deriving DecidableEq, Repr
+
+instance : Zero CRat := ⟨⟨0, 0⟩⟩
+instance : One CRat := ⟨⟨1, 0⟩⟩
+instance : Add CRat := ⟨fun a b => ⟨a.re + b.re, a.im + b.im⟩⟩
+instance : Neg CRat := ⟨fun a => ⟨-a.re, -a.im⟩⟩
+instance : Mul CRat := ⟨fun a b => ⟨a.re * b.re - a.im * b.im, a.re * b.im + a.im * b.re⟩⟩
+instance : CParts CRat where
+  re z := ⟨z.re, 0⟩
+  im z := ⟨z.im, 0⟩
+  I := ⟨0, 1⟩
+  conj z := ⟨z.re, -z.im⟩
+
+/-- the probe vector `((j+1)/4 + (n-j)/8 i)_{j<n}` -/
+def probeC (n : Nat) : Vec CRat := (List.range n).map fun (j : Nat) => ⟨(((j + 1 : Nat) : Int) : Rat) / 4, (((n - j : Nat) : Int) : Rat) / 8⟩
 
 end BemppVerif.Model.Alg
